@@ -45,6 +45,18 @@ PROBE_VALUES = [
     ("plain-css-fn", "foo(0.5, #ff0000)"), ("plain-css-fn", "url(a0.5)"), ("plain-css-fn", "var(--x, 0.5)"),
     ("unary", "-(0.5)"), ("unary", "+0.5px"), ("unary", "/0.5"), ("op", "0.5 + \"\""), ("op", "\"\" + #ff0000"),
     ("op", "0.5 + a"), ("op", "a - 0.5"), ("op", "(0.5/a)"), ("op", "#ff0000 + \"x\""), ("op", "(a, 0.5) + \"\""),
+    # a colour on the LEFT of `+` / `-` / `/` with a string, list or null on the right
+    ("color-op", "white + -fg"), ("color-op", "#ff0000 + \"\""), ("color-op", "aquamarine + x"), ("color-op", "#f00 + null"),
+    ("color-op", "white + (a, b)"), ("color-op", "red - x"), ("color-op", "(white/x)"), ("color-op", "white + 1"),
+    ("color-op", "#fff + \"-q\""), ("color-op", "rgba(1, 2, 3, 0.5) + x"), ("color-op", "x + white"), ("color-op", "-white"),
+    # magnitudes below the printing precision (float noise), both signs
+    ("float-noise", "0.3 - 0.1 - 0.2"), ("float-noise", "(0.3 - 0.1 - 0.2) * 1px"), ("float-noise", "0.1 + 0.2 - 0.3"),
+    ("float-noise", "-1e-11"), ("float-noise", "1e-11"), ("float-noise", "-0.00000000004px"), ("float-noise", "-0.00000000006px"),
+    ("float-noise", "0.00000000004%"), ("float-noise", "-0.0"), ("float-noise", "math.div(-1, 1e12)"), ("float-noise", "1 - 0.9 - 0.1"),
+    ("float-noise", "-0.99999999999"), ("float-noise", "0.99999999996"), ("float-noise", "(0.3 - 0.1 - 0.2) (0.1 + 0.2 - 0.3)"),
+    # values whose last character is a (possibly escaped) ';' or '}'
+    ("ends-semicolon", "c\\;"), ("ends-semicolon", "x c\\;"), ("ends-semicolon", "unquote(\"1;2;\")"), ("ends-semicolon", "a\\}"),
+    ("ends-semicolon", "unquote(\"c\\\\;\")"), ("ends-semicolon", "(a, c\\;)"),
 ]
 
 PROBE_CONTEXTS = [
@@ -64,6 +76,11 @@ PROBE_CONTEXTS = [
     ("quote-len", 'p: str-length(quote("#{{{v}}}"))'),
     ("prop-name", 'p-#{{str-length("#{{{v}}}")}}: 1'),
     ("type-of-len", 'p: type-of({v}) str-length("#{{type-of({v})}}")'),
+    # the value itself in the output, as the LAST declaration of its block (with and without the final ';')
+    ("direct-last", 'o: x; p: {v}'),
+    ("direct-not-last", 'p: {v}; o: x'),
+    ("direct-list", 'p: {v} {v}, 1px'),
+    ("direct-nested", '@media screen {{ p: {v} }} b {{ c: d }}'),
 ]
 
 
@@ -74,7 +91,8 @@ def probe_cases(rng, n):
     for fam, v in PROBE_VALUES:
         for cname, tmpl in PROBE_CONTEXTS:
             body = tmpl.format(v=v)
-            src = '@use "sass:math"; @use "sass:meta"; @use "sass:list";\na { ' + body + "; }\n"
+            end = " }\nz { y: w; }\n" if cname.startswith("direct") else "; }\n"
+            src = '@use "sass:math"; @use "sass:meta"; @use "sass:list";\na { ' + body + end
             cases.append({"key": f"probe:{fam}:{v}:{cname}", "src": src, "family": fam, "syntax": "scss"})
         src = ('@use "sass:math"; @use "sass:meta"; @use "sass:list";\n.s-#{str-length("#{' + v + '}")} { p: 1; }\n')
         cases.append({"key": f"probe:{fam}:{v}:selector-name", "src": src, "family": fam, "syntax": "scss"})
@@ -84,15 +102,18 @@ def probe_cases(rng, n):
     return cases[:n]
 
 
-# known findings: families of probes / witness inputs that the unchanged tree fails (replayed every run)
-FAMILY_TAG = {"rgb-special-fn": "eval-serialises-with-style:rgb-special-function",
-              "calc-args": "eval-serialises-with-style:calc-args"}
-
-WITNESSES = [
-    ("C06-F1", 'a { p: str-length(rgba(var(--x), 0.5)); }', "eval-serialises-with-style:rgb-special-function"),
-    ("C06-F2", '@use "sass:meta"; a { p: str-length("#{meta.calc-args(calc(0.5px + 1%))}"); }', "eval-serialises-with-style:calc-args"),
-    ("C06-F3", 'a { p: rgba(1, 2, 3, 0.5px); }', "error-message-spelled-by-style"),
+# minimised past failures (fixed in /repo: 1f313a3, 5c13552, 6f559f9): run first on every run and must now
+# behave the same in both styles
+CORPUS = [
+    ("C06-F1", 'a { p: str-length(rgba(var(--x), 0.5)); }'),
+    ("C06-F1b", 'a { p: str-length(hsl(var(--h), 0.5%, 20%)) str-length(rgb(1 2 0.5 / var(--a))); }'),
+    ("C06-F2", '@use "sass:meta"; a { p: str-length("#{meta.calc-args(calc(0.5px + 1%))}"); }'),
+    ("C06-F3", 'a { p: rgba(1, 2, 3, 0.5px); }'),
+    ("C06-F3b", 'a { p: calc(0.5px + 0.5s); }'),
+    ("C06-F3c", '@use "sass:selector"; a { p: selector.append("a > b", "> c"); }'),
+    ("D4", 'a { p: str-length("#{0.5}") str-length("#{#ff0000}") str-length("#{(a, b)}"); }'),
 ]
+FAMILY_TAG = {}
 
 
 def _msg(a):
@@ -138,7 +159,20 @@ def compare_styles(ck, pool, progs, label):
             te = cc.canon_css(ae["css"], True)
             tc = cc.canon_css(ac["css"], True)
         except cssread.IllFormed as e:
-            ck.hist(f"{label}:unreadable-output(C05's business)")
+            def _ok(t):
+                try:
+                    cssread.parse(t)
+                    return True
+                except cssread.IllFormed:
+                    return False
+            re_, rc_ = _ok(ae["css"]), _ok(ac["css"])
+            if re_ != rc_:
+                ck.count((label, p["key"]), True)
+                fails.append({"key": p["key"], "src": p["src"], "what": "the output of one style only is ill-formed CSS",
+                              "expanded_css": ae["css"], "compressed_css": ac["css"], "expanded_readable": re_,
+                              "compressed_readable": rc_, "tags": fam_tags})
+            else:
+                ck.hist(f"{label}:unreadable-output-in-both-styles(C05's business)")
             continue
         nontrivial = ae["css"].strip() != "" and ae["css"] != ac["css"]
         ck.count((label, p["key"]), nontrivial)
@@ -259,9 +293,11 @@ def run(tier, seed):
         "Grass.Serialize), generated SassScript programs (nesting, &, placeholders/@extend, mixins, control flow, maps, "
         "math, colour and string functions, interpolation in selectors/properties/values/queries), the golden corpus "
         "(test cases without random()/unique-id()), and SassScript-visible probes: "
-        f"{len(PROBE_VALUES)} values (numbers <1, colours, lists, calculations, selector functions, rgb()/hsl() with var(), "
-        f"meta.calc-args, operators) x {len(PROBE_CONTEXTS) + 2} observers (str-length/str-index/str-slice of the "
-        "interpolated text, ==, @if branch, property/selector/media-query names built from it). A case is distinct by "
+        f"{len(PROBE_VALUES)} values (numbers <1, float noise of both signs below the printing precision, colours, colour-on-the-left "
+        f"operators, lists, calculations, selector functions, rgb()/hsl() with var(), meta.calc-args, values ending in an escaped ;) x "
+        f"{len(PROBE_CONTEXTS) + 2} observers (str-length/str-index/str-slice of the interpolated text, ==, @if branch, "
+        "property/selector/media-query names built from it, and the value itself as last / non-last declaration, in a list, "
+        "inside @media). A case is distinct by "
         "its input and non-trivial when both styles compile and the two texts differ.")
     ck.assumptions = ["outputs observed through tools/cssread.py; identification rules of the canonicaliser are listed in `rule`",
                       "Eval has no style parameter in the model (C06_eval_style_free is true by construction)"]
@@ -273,19 +309,8 @@ def run(tier, seed):
     import time as _t
     log(f"[C06] proof+build done at {round(_t.time() - ck.t0)}s")
     fails = []
-    # known findings: replay the witnesses first
-    wit = [{"key": f"witness:{wid}", "src": src, "syntax": "scss", "wtag": tag} for wid, src, tag in WITNESSES]
-    wf = compare_styles(ck, pool, wit, "witness")
-    failing_keys = {f["key"] for f in wf}
-    for w in wit:
-        if w["key"] not in failing_keys:
-            ck.notes.append({"stale_known_finding": w["key"], "note": "the witness no longer fails on this tree"})
-    for f in wf:
-        f.setdefault("tags", [])
-        w = next(x for x in wit if x["key"] == f["key"])
-        if w["wtag"] not in f["tags"]:
-            f["tags"].append(w["wtag"])
-    fails += wf
+    # past failures first
+    fails += compare_styles(ck, pool, [{"key": f"regression:{wid}", "src": src, "syntax": "scss"} for wid, src in CORPUS], "regression")
     # tie
     tcases = c05.gen_tie_cases(ck, n_tie)
     n_clean = len(c05.CORPUS) + int(0.4 * n_tie)
@@ -295,9 +320,12 @@ def run(tier, seed):
     read_tie(ck, pool, 600 if tier == "quick" else 6000)
     log(f"[C06] tie: {len(tcases)} trees + reader tie, disagreements={ck.cov['model_disagreements']}")
     # direct
-    fails += compare_styles(ck, pool, [{"key": "tree:" + str(i), "src": c["src"], "syntax": "scss"} for i, c in enumerate(tcases)], "gen-tree")
+    # (only the trees whose unquoted atoms are CSS tokens: the others carry junk such as `;` inside a value, which no
+    # reader can attribute to a declaration; they stay in the byte-for-byte tie above)
+    fails += compare_styles(ck, pool, [{"key": "tree:" + str(i), "src": c["src"], "syntax": "scss"}
+                                       for i, c in enumerate(tcases) if i < n_clean], "gen-tree")
     log(f"[C06] gen-tree done at {round(_t.time() - ck.t0)}s")
-    fails += compare_styles(ck, pool, probe_cases(ck.rng, 10 ** 6 if tier == "thorough" else 700), "probe")
+    fails += compare_styles(ck, pool, probe_cases(ck.rng, 10 ** 6), "probe")
     log(f"[C06] probes done at {round(_t.time() - ck.t0)}s")
     fails += compare_styles(ck, pool, [{"key": "prog:" + str(i), "src": cc.gen_program(ck.rng), "syntax": "scss"} for i in range(n_prog)], "gen-prog")
     log(f"[C06] gen-prog done at {round(_t.time() - ck.t0)}s")
